@@ -201,7 +201,8 @@ func C06(c *core.Ctx) {
 		n := 0
 		stableOK := true
 		var sortPos token.Pos
-		for _, ts := range streams {
+		for _, run := range catchmentRuns(streams, maxN) {
+			ts, measure := run.ts, run.measure
 			for K := 1; K <= maxN; K++ {
 				for _, D := range []float64{-1, 1} {
 					n++
@@ -214,7 +215,7 @@ func C06(c *core.Ctx) {
 					}
 					stubDistances(ev, table, nil)
 					out := &eval.ChanVal{Name: "out"}
-					_, err := ev.CallFunc(fn, mkRec("q", 5, 'A', 0), eval.K(int64(K)), eval.FConst(D), eval.S("raw"), &eval.ChanVal{Name: "in", Feed: feed}, out)
+					_, err := ev.CallFunc(fn, mkRec("q", 5, 'A', 0), eval.K(int64(K)), eval.FConst(D), eval.S(measure), &eval.ChanVal{Name: "in", Feed: feed}, out)
 					if err != nil {
 						badDef = append(badDef, fmt.Sprintf("%s K=%d D=%v: undecided: %v", showTargets(ts), K, D, err))
 						continue
@@ -253,7 +254,7 @@ func C06(c *core.Ctx) {
 						}
 					}
 					if strings.Join(got, ",") != strings.Join(want, ",") || !qok {
-						msg := fmt.Sprintf("[%s] K=%d D=%v -> %v, want %v", showTargets(ts), K, D, got, want)
+						msg := fmt.Sprintf("[%s] measure=%s K=%d D=%v -> %v, want %v", showTargets(ts), measure, K, D, got, want)
 						if hasNaN(ts) {
 							badNaN = append(badNaN, msg)
 						} else {
@@ -281,35 +282,59 @@ func C06(c *core.Ctx) {
 func c06Dispatch(c *core.Ctx, fn *types.Func, name string, mkRec func(string, int64, byte, int64) *eval.StructVal,
 	stub func(*eval.Evaluator, map[string]float64, map[string]float64)) {
 	off := map[string]float64{"rawDistance": 0, "snpDistance": 10, "tn93Distance": 20}
+	// three targets that are alike in every field the selection may look at (score, base counts) but lie at different
+	// distances: what is ranked and reported for a target is the distance function's value for THAT target
+	table := map[string]float64{"t0": 3, "t1": 1, "t2": 2}
 	var bad []string
 	for measure, fname := range map[string]string{"raw": "rawDistance", "snp": "snpDistance", "tn93": "tn93Distance"} {
 		ev := newEval(c)
-		stub(ev, map[string]float64{"t0": 1}, off)
+		stub(ev, table, off)
 		out := &eval.ChanVal{Name: "out"}
-		feed := &eval.ChanVal{Name: "in", Feed: []eval.Value{mkRec("t0", 0, 'C', 1)}}
+		feed := &eval.ChanVal{Name: "in", Feed: []eval.Value{mkRec("t0", 0, 'C', 1), mkRec("t1", 1, 'C', 1), mkRec("t2", 2, 'C', 1)}}
 		var err error
 		if name == "findClosest" {
 			_, err = ev.CallFunc(fn, mkRec("q", 5, 'A', 0), eval.S(measure), feed, out)
 		} else {
-			_, err = ev.CallFunc(fn, mkRec("q", 5, 'A', 0), eval.K(1), eval.FConst(-1), eval.S(measure), feed, out)
+			_, err = ev.CallFunc(fn, mkRec("q", 5, 'A', 0), eval.K(3), eval.FConst(-1), eval.S(measure), feed, out)
 		}
 		if err != nil || len(out.Sent) != 1 {
 			bad = append(bad, fmt.Sprintf("%s: undecided: %v", measure, err))
 			continue
 		}
 		res := out.Sent[0].(*eval.StructVal)
-		var d *eval.FExpr
+		got := map[string]float64{}
 		if name == "findClosest" {
-			d, _ = res.F["distance"].(*eval.FExpr)
-		} else if cat, ok := res.F["catchment"].(eval.Slice); ok && cat.Len() == 1 {
-			d, _ = cat.Elems()[0].(*eval.StructVal).F["distance"].(*eval.FExpr)
+			d, _ := res.F["distance"].(*eval.FExpr)
+			tn, _ := res.F["tname"].(eval.Str)
+			if d != nil && d.IsConst() && tn.IsConst() {
+				got[tn.Const()] = d.C
+			}
+			if len(got) != 1 || got["t1"] != table["t1"]+off[fname] {
+				bad = append(bad, fmt.Sprintf("measure %q: reported %v, want t1 at %s(q, t1) = %v", measure, got, fname, table["t1"]+off[fname]))
+			}
+			continue
 		}
-		if d == nil || !d.IsConst() || d.C != 1+off[fname] {
-			bad = append(bad, fmt.Sprintf("measure %q does not use %s", measure, fname))
+		if cat, ok := res.F["catchment"].(eval.Slice); ok {
+			for _, e := range cat.Elems() {
+				r, _ := e.(*eval.StructVal)
+				if r == nil {
+					continue
+				}
+				d, _ := r.F["distance"].(*eval.FExpr)
+				tn, _ := r.F["tname"].(eval.Str)
+				if d != nil && d.IsConst() && tn.IsConst() {
+					got[tn.Const()] = d.C
+				}
+			}
+		}
+		for t, v := range table {
+			if g, ok := got[t]; !ok || g != v+off[fname] {
+				bad = append(bad, fmt.Sprintf("measure %q: target %s reported at %v (present=%v), want %s(q, %s) = %v", measure, t, g, ok, fname, t, v+off[fname]))
+			}
 		}
 	}
 	sort.Strings(bad)
-	c.Ob("R2/"+name+"/measure-dispatch", len(bad) == 0, fn.Pos(), "%s", strings.Join(bad, "; "))
+	c.Ob("R2/"+name+"/measure-dispatch", len(bad) == 0, fn.Pos(), "%s", first(bad, 3))
 }
 
 // c06Score: completeness score table = 12/|base set| for every code; zero elsewhere.
@@ -430,4 +455,27 @@ func checkUndefinedDistance(c *core.Ctx, rule string) {
 		}
 		c.Ob(key, len(bad) == 0, fn.Pos(), "%s", first(bad, 3))
 	}
+}
+
+type catchmentRun struct {
+	ts      []tgt
+	measure string
+}
+
+// catchmentRuns: every stream under the raw measure, and the streams of up to maxN-1 targets under the two others
+// (the selection must treat the distance as a function of the pair whatever the measure is: no value carried over
+// from the previous target).
+func catchmentRuns(streams [][]tgt, maxN int) []catchmentRun {
+	var out []catchmentRun
+	for _, ts := range streams {
+		out = append(out, catchmentRun{ts, "raw"})
+	}
+	for _, m := range []string{"snp", "tn93"} {
+		for _, ts := range streams {
+			if len(ts) < maxN {
+				out = append(out, catchmentRun{ts, m})
+			}
+		}
+	}
+	return out
 }
